@@ -38,6 +38,7 @@ func register(e Engine) { engines[e.Name()] = e }
 
 func init() {
 	register(stepEngine{})
+	register(multiEngine{})
 }
 
 // ---------------------------------------------------------------------------
@@ -149,6 +150,9 @@ func isolatedExec(eng Engine, c interface{}, st *Stats) (*Violation, interface{}
 		fatalf("isolate: %v", err)
 	}
 	self, _ := os.Executable()
+	if childBin != "" {
+		self = childBin
+	}
 	cmd := exec.Command(self, "exec", "--engine", eng.Name(), "--case", path, "--out", path+".out")
 	var stderr bytes.Buffer
 	cmd.Stderr = &stderr
@@ -228,7 +232,18 @@ func firstLines(s string, n int) string {
 	return strings.Join(l, "\n")
 }
 
+// BatchCtx identifies a batch prefix: a pure function of these values and the code.
+type BatchCtx struct {
+	Seed   uint64 `json:"seed"`
+	Checks int    `json:"checks"`
+	Tier   string `json:"tier"`
+	Warm   bool   `json:"warm"`
+	Index  int    `json:"index"`
+}
+
+var stopAfter int
 var batchDeadline time.Time
+var childBin string
 
 func runBatch(eng Engine, seed uint64, checks int, tier string, skip int, isolate bool, curPath string) *BatchResult {
 	res := &BatchResult{Engine: eng.Name(), Seed: seed, Checks: checks, Stats: NewStats()}
@@ -249,10 +264,14 @@ func runBatch(eng Engine, seed uint64, checks int, tier string, skip int, isolat
 	var lastCase interface{}
 	idx := 0
 	failedOnce := false
+	firstFail := 0
 	prop := func(t *rapid.T) {
 		c := eng.Gen(t, tier)
 		idx++
 		if !failedOnce && idx <= skip {
+			return
+		}
+		if !failedOnce && stopAfter > 0 && idx > stopAfter {
 			return
 		}
 		if !failedOnce && !batchDeadline.IsZero() && time.Now().After(batchDeadline) {
@@ -260,7 +279,7 @@ func runBatch(eng Engine, seed uint64, checks int, tier string, skip int, isolat
 			return
 		}
 		if curPath != "" {
-			writeJSON(curPath, map[string]interface{}{"index": idx, "case": c})
+			writeJSON(curPath, map[string]interface{}{"index": idx, "first_fail": firstFail, "case": c})
 		}
 		var v *Violation
 		var rc interface{}
@@ -277,6 +296,9 @@ func runBatch(eng Engine, seed uint64, checks int, tier string, skip int, isolat
 			if kf := isKnown(v); kf != nil {
 				st.Known[kf.Property+" "+kf.Key]++
 				return
+			}
+			if !failedOnce {
+				firstFail = idx
 			}
 			failedOnce = true
 			lastV, lastCase = v, rc
@@ -375,11 +397,15 @@ func main() {
 		if eng == nil {
 			fatalf("unknown engine %q", a["engine"])
 		}
-		eng.Init()
-		seed, _ := strconv.ParseUint(a["seed"], 10, 64)
 		if a["preflight"] == "true" {
 			os.Setenv("VERIF_PREFLIGHT", "1")
 		}
+		if a["warm"] == "true" {
+			os.Setenv("VERIF_WARM", "1") // read by Engine.Init
+		}
+		eng.Init()
+		stopAfter = atoi(a["stopafter"], 0)
+		seed, _ := strconv.ParseUint(a["seed"], 10, 64)
 		if d := a["deadline"]; d != "" {
 			ms, _ := strconv.ParseInt(d, 10, 64)
 			batchDeadline = time.UnixMilli(ms)
@@ -397,6 +423,7 @@ func main() {
 			fatalf("unknown engine %q", a["engine"])
 		}
 		eng.Init()
+		singleCaseProcess = true
 		os.Exit(execCaseFile(eng, a["case"], a["out"], false))
 	case "replay":
 		path := a["_"]
@@ -415,11 +442,62 @@ func main() {
 		if eng == nil {
 			fatalf("replay: unknown engine %q in %s", hdr.Engine, path)
 		}
-		eng.Init()
-		os.Exit(execCaseFile(eng, path, "", true))
+		childBin = a["childbin"]
+		c, err := eng.Decode(b)
+		if err != nil {
+			fatalf("decode %s: %v", path, err)
+		}
+		// always in a fresh child process: a case may abort the process (race report, fatal stack overflow)
+		st := NewStats()
+		v, _, valid := isolatedExec(eng, c, st)
+		if !valid {
+			fmt.Println("case is invalid (reference run does not terminate within the cap)")
+			os.Exit(4)
+		}
+		if v != nil {
+			if kf := isKnown(v); kf != nil {
+				fmt.Printf("KNOWN-FINDING: property=%s %s (%s)\n", v.Property, kf.Key, v.Detail)
+				os.Exit(0)
+			}
+			fmt.Printf("VIOLATION property=%s replay=%s\n  class=%s\n  %s\n", v.Property, path, v.Class, v.Detail)
+			os.Exit(1)
+		}
+		var bh struct {
+			Batch *BatchCtx `json:"batch"`
+		}
+		json.Unmarshal(b, &bh)
+		if bh.Batch != nil {
+			// the violation was observed at case #Index of a batch and does not show
+			// when the case runs alone: re-run that batch prefix (same seed, same code)
+			fmt.Printf("case alone shows no violation; re-running batch prefix seed=%d up to case %d\n", bh.Batch.Seed, bh.Batch.Index)
+			dir, _ := os.MkdirTemp("", "ottosim-replay-")
+			defer os.RemoveAll(dir)
+			out := filepath.Join(dir, "b.json")
+			args := []string{"batch", "--engine", hdr.Engine, "--seed", strconv.FormatUint(bh.Batch.Seed, 10), "--checks", strconv.Itoa(bh.Batch.Checks), "--tier", bh.Batch.Tier, "--out", out, "--cur", filepath.Join(dir, "cur.json"), "--stopafter", strconv.Itoa(bh.Batch.Index)}
+			if bh.Batch.Warm {
+				args = append(args, "--warm")
+			}
+			bin, _ := os.Executable()
+			if childBin != "" {
+				bin = childBin
+			}
+			br, code, stderr := runChild(bin, args, out)
+			if br == nil {
+				v := crashViolation(eng, code, stderr)
+				fmt.Printf("VIOLATION property=%s replay=%s\n  class=%s\n  %s\n", v.Property, path, v.Class, v.Detail)
+				os.Exit(1)
+			}
+			if br.Violation != nil {
+				v := br.Violation
+				fmt.Printf("VIOLATION property=%s replay=%s\n  class=%s\n  %s\n", v.Property, path, v.Class, v.Detail)
+				os.Exit(1)
+			}
+		}
+		fmt.Printf("no violation (runs=%d steps=%d)\n", st.Runs, st.Steps)
 	case "dethash":
 		eng := engines[a["engine"]]
 		eng.Init()
+		stopAfter = atoi(a["stopafter"], 0)
 		seed, _ := strconv.ParseUint(a["seed"], 10, 64)
 		eventLogOn = true
 		res := runBatch(eng, seed, atoi(a["checks"], 20), a["tier"], 0, false, "")
@@ -548,6 +626,10 @@ func checkMain(a map[string]string) int {
 	defer os.RemoveAll(scratch)
 	os.Setenv("VERIF_SCRATCH", scratch)
 	self, _ := os.Executable()
+	if a["childbin"] != "" {
+		self = a["childbin"]
+		childBin = self
+	}
 
 	total := NewStats()
 	var mu sync.Mutex
@@ -582,7 +664,17 @@ func checkMain(a map[string]string) int {
 				if bi == 0 {
 					args = append(args, "--preflight")
 				}
-				br, code, stderr := runChild(self, args, out)
+				if bi%2 == 1 {
+					args = append(args, "--warm")
+				}
+				bin := self
+				if a["altbin"] != "" && bi%3 == 2 {
+					// every third batch runs without the race detector and with the
+					// real sync.Pool: faster, and semantic interference that depends on
+					// pooled-object reuse stays reachable
+					bin = a["altbin"]
+				}
+				br, code, stderr := runChild(bin, args, out)
 				if br == nil {
 					// the child died: attribute to the case it was executing, then minimise in isolation
 					eng := engines[cfg.engine]
@@ -590,14 +682,19 @@ func checkMain(a map[string]string) int {
 					idx := 0
 					if b, err := os.ReadFile(cur); err == nil {
 						var cf struct {
-							Index int `json:"index"`
+							Index     int `json:"index"`
+							FirstFail int `json:"first_fail"`
 						}
 						json.Unmarshal(b, &cf)
 						idx = cf.Index
+						if cf.FirstFail > 0 {
+							idx = cf.FirstFail // died while minimising an earlier in-process violation
+						}
 					}
 					fmt.Printf("batch %d (seed %d) died at case %d: %s; minimising in isolated children\n", bi, bseed, idx, v.Class)
 					args2 := append(append([]string{}, args...), "--isolate", "--skip", strconv.Itoa(idx-1))
-					br2, code2, stderr2 := runChild(self, args2, out)
+					childBin = bin
+					br2, code2, stderr2 := runChild(bin, args2, out)
 					if br2 == nil {
 						mu.Lock()
 						harnessErr = fmt.Sprintf("isolated re-run of batch %d died too (exit %d): %s", bi, code2, firstLines(stderr2, 20))
@@ -607,19 +704,30 @@ func checkMain(a map[string]string) int {
 					if br2.Violation == nil {
 						// not reproduced in isolation: report the original crash with the unminimised case
 						br2.Violation = v
+						var cm map[string]interface{}
 						if b, err := os.ReadFile(cur); err == nil {
 							var cf struct {
-								Case json.RawMessage `json:"case"`
+								Case map[string]interface{} `json:"case"`
 							}
 							json.Unmarshal(b, &cf)
-							br2.Case = cf.Case
+							cm = cf.Case
 						}
+						if cm == nil {
+							cm = map[string]interface{}{"engine": cfg.engine}
+						}
+						cm["batch"] = BatchCtx{Seed: bseed, Checks: checks, Tier: tier, Warm: bi%2 == 1, Index: idx}
+						br2.Case = cm
 						br2.Flaky = true
 					}
 					br = br2
 				}
 				mu.Lock()
 				batches++
+				if bin != self {
+					br.Stats.Probes["batches_without_race_detector"]++
+				} else if a["altbin"] != "" {
+					br.Stats.Probes["batches_with_race_detector"]++
+				}
 				total.Merge(br.Stats)
 				if br.Violation != nil && firstViol == nil {
 					firstViol = br
@@ -696,9 +804,14 @@ func runChild(self string, args []string, out string) (*BatchResult, int, string
 		childMu.Unlock()
 		return &BatchResult{Stats: NewStats()}, 0, ""
 	}
+	err := cmd.Start()
+	if err != nil {
+		childMu.Unlock()
+		fatalf("spawn: %v", err)
+	}
 	children[cmd] = true
 	childMu.Unlock()
-	err := cmd.Run()
+	err = cmd.Wait()
 	childMu.Lock()
 	delete(children, cmd)
 	wasCancelled := cancelled
@@ -772,6 +885,17 @@ func writeEvidence(cfg checkCfg, seed uint64, st *Stats, batches int, wall float
 }
 
 var checkConfigs = map[string]checkCfg{
+	"C20": {
+		prop: "C20", engine: "multisim", level: "exploration", checksPerBatch: 40, minBatches: 16,
+		rule: "cases = (template program, 1-3 shared Scripts/Programs, 2-5 tasks of mixed provenance {fresh, copy, copy of copy, live copy} each with 1-3 programs submitted by route {text, reader, shared Script, shared ast.Program, self-compiled}), run once interleaved at evaluation-step granularity under a seeded scheduler (uniform / burst / PCT priorities / serial) on real goroutines with the race detector armed, then each task alone; evaluations counts runs (1 interleaved + N solo per case). distinct_nontrivial = number of distinct schedule hashes (sequence of context switches) among interleaved runs with at least 2 switches while at least 2 runtimes were mid-program.",
+		assumptions: []string{
+			"the step handoff is invisible to the race detector (plain words in //go:norace functions): amd64 TSO and the Go compiler not moving memory operations across an opaque call are trusted",
+			"context switches happen only at evaluation steps; Go-only built-ins and Copy() are atomic in simulated time (the race detector still sees conflicting accesses across them)",
+			"the race detector keeps a bounded access history per word; sampling, not proof",
+		},
+		real:      []string{"otto parser, compiler, evaluator, built-ins, cloner (Copy), Script/Program sharing, Go race detector, real goroutines"},
+		simulated: []string{"which goroutine runs at each evaluation step", "random source (seeded per runtime)", "host functions (emit/rec/nid/...)", "wall clock kept out of workloads"},
+	},
 	"C18": {
 		prop: "C18", engine: "stepsim", level: "fault_enumeration", checksPerBatch: 6, minBatches: 16,
 		rule: "cases = generated programs x (stack limit, channel capacity, host-function fault schedule); each case is run fault-free (with and without a channel) and then, in exhaustive mode, once per (step k in [0,n0]) x {noop, panic(error), panic(string)} interrupt, or in seeded mode under a drawn schedule of up to 4 interrupts/watchdogs of 7 kinds; evaluations counts simulated runs. distinct_nontrivial = number of distinct unwinding signatures (collapsed interpreter Go call stack at the moment the interrupt function was invoked x interrupt kind), counted only for interrupts actually delivered while the script was running.",
